@@ -135,6 +135,38 @@ pub fn gen(tier: &str, rng: &mut Rng, emit: &mut Emit) {
     for len in [0u64, 1, 35] {
         emit.case(31, l(vec![ctor(rng, len), a(1)]));
     }
+    // long slices of high-valued bytes (a block-wise or lane-wise summation can only go wrong when one slice carries many
+    // large bytes): appends, writes and sink pushes of 1 KiB .. 70 KiB of 0xff / >= 0x80 / random bytes into tables whose own
+    // zero-filled body is short or long
+    let fills: [&dyn Fn(&mut Rng, usize) -> Vec<u8>; 4] = [
+        &|_r, n| vec![0xffu8; n],
+        &|r, n| r.bytes(n).into_iter().map(|b| b | 0x80).collect(),
+        &|r, n| r.bytes(n),
+        &|r, n| (0..n).map(|i| if i % 2 == 0 { 0xff } else { (r.below(4)) as u8 }).collect(),
+    ];
+    let sizes: &[usize] = if tier == "thorough" {
+        &[257, 1023, 1024, 1025, 1032, 1040, 1500, 2047, 2048, 2049, 2056, 3000, 4096, 8200, 16400, 65536, 70001]
+    } else {
+        &[257, 1024, 1032, 1500, 2048, 2056, 3000, 8200, 70001]
+    };
+    for (fi, f) in fills.iter().enumerate() {
+        for &n in sizes {
+            for len in [36u64, 44, 1100, 5000] {
+                if n > 9000 && (len != 36 || fi > 1) {
+                    continue;
+                }
+                let big = f(rng, n);
+                let mut ops = vec![l(vec![a(2), blist(&big)])];
+                // overwrite part of it again, then push a shorter run through the sink, then append once more
+                let m = n.min(1300);
+                ops.push(l(vec![a(3), a(len + (n - m) as u64), blist(&f(rng, m))]));
+                ops.push(l(vec![a(6), blist(&f(rng, 40))]));
+                ops.push(l(vec![a(2), blist(&f(rng, n.min(2100)))]));
+                ops.push(l(vec![a(7)]));
+                emit.case(31, with_obs(ctor(rng, len), ops));
+            }
+        }
+    }
     // random sequences of length <= 200
     let n = if tier == "thorough" { 20_000 } else { 2_000 };
     for _ in 0..n {
